@@ -82,6 +82,7 @@ class Sem:
         self._caller: Optional[Tuple["Sem", ast.Call, Dict[str, ast.AST]]] = None
         self._caller_done = False
         self.subst_consts = True   # substitute module-level literal constants
+        self.inline_helpers = True  # β-reduce calls of private single-expression helpers of the same module
 
     # ------------------------------------------------------------------ caller binding for private helpers
     def _bind_caller(self) -> None:
@@ -224,6 +225,10 @@ class Sem:
             return e
         if isinstance(e, ast.Lambda):
             return e
+        if isinstance(e, ast.Call) and self.inline_helpers and depth > 0:
+            inl = self._inline(e, at, depth, busy, tc)
+            if inl is not None:
+                return inl
         if isinstance(e, (ast.ListComp, ast.GeneratorExp, ast.SetComp, ast.DictComp)):
             # own scope: substitute free names only (names bound by the comprehension keep their meaning)
             bound = {n.id for g in e.generators for n in ast.walk(g.target) if isinstance(n, ast.Name)}
@@ -239,6 +244,44 @@ class Sem:
                     setattr(new, fname, [self._res(x, at, depth, busy, tc) if isinstance(x, ast.AST) and not isinstance(x, (ast.cmpop,)) else x for x in v])
             return new
         return e
+
+    def _inline(self, c: ast.Call, at: int, depth: int, busy, tc: bool) -> Optional[ast.AST]:
+        """`_helper(a, b)` → the helper's return expression with parameters replaced by the (resolved) arguments, when the
+        helper is a private function/method of the same module whose body is a single `return <expr>`."""
+        if self.idx is None or self.fi is None:
+            return None
+        fn = c.func
+        name = fn.id if isinstance(fn, ast.Name) else fn.attr if isinstance(fn, ast.Attribute) and isinstance(fn.value, ast.Name) and fn.value.id in ("self", "cls") else None
+        if name is None or not name.startswith("_") or (name.startswith("__") and name.endswith("__")):
+            return None
+        m = self.fi.module
+        cand = m.functions.get(name) if isinstance(fn, ast.Name) else None
+        if cand is None and isinstance(fn, ast.Attribute) and self.fi.cls is not None:
+            cand = self.idx.find_method(self.fi.cls, name)
+        if cand is None:
+            return None
+        body = [s for s in cand.node.body if not (isinstance(s, ast.Expr) and isinstance(s.value, ast.Constant) and isinstance(s.value.value, str))]
+        if len(body) != 1 or not isinstance(body[0], ast.Return) or body[0].value is None:
+            return None
+        params = list(cand.params)
+        if isinstance(fn, ast.Attribute) and params and params[0] in ("self", "cls"):
+            params = params[1:]
+        if any(isinstance(a, ast.Starred) for a in c.args) or any(k.arg is None for k in c.keywords) or len(c.args) > len(params):
+            return None
+        sub: Dict[str, ast.AST] = {}
+        for p_, a in zip(params, c.args):
+            sub[p_] = self._res(a, at, depth - 1, busy, tc)
+        for k in c.keywords:
+            sub[k.arg] = self._res(k.value, at, depth - 1, busy, tc)
+        # defaults of parameters that were not passed
+        a_ = cand.node.args
+        pos = [x.arg for x in a_.posonlyargs + a_.args]
+        for i_, d_ in enumerate(a_.defaults):
+            pn = pos[len(pos) - len(a_.defaults) + i_]
+            sub.setdefault(pn, d_)
+        if any(p_ not in sub for p_ in params):
+            return None
+        return self._subst(body[0].value, sub)
 
     def _res_comp(self, e: ast.AST, at: int, depth: int, busy, tc: bool, bound: Set[str]) -> ast.AST:
         if isinstance(e, ast.Name):
@@ -341,6 +384,32 @@ class Sem:
                     return None
                 return self.element(v, ds[0].node)
         return None
+
+    def alternatives(self, e: ast.AST, at: int, limit: int = 12) -> List[ast.AST]:
+        """Resolved variants of `e` when some local has several reaching definitions (one variant per definition)."""
+        base = self.resolve(e, at)
+        outs = [base]
+        for _ in range(3):
+            nxt: List[ast.AST] = []
+            changed = False
+            for o in outs:
+                multi = None
+                for n in ast.walk(o):
+                    if isinstance(n, ast.Name) and isinstance(n.ctx, ast.Load):
+                        ds = [d for d in self.du.reaching(n.id, at) if d.kind == "assign" and d.value is not None]
+                        if len(ds) > 1 and len(ds) == len(self.du.reaching(n.id, at)):
+                            multi = (n.id, ds)
+                            break
+                if multi is None:
+                    nxt.append(o)
+                    continue
+                changed = True
+                for d in multi[1]:
+                    nxt.append(self._subst(o, {multi[0]: self.resolve(d.value, d.node)}))
+            outs = nxt[:limit]
+            if not changed:
+                break
+        return outs
 
     def rnorm(self, e: ast.AST, at: Optional[int] = None) -> str:
         return norm(self.resolve(e, at))
